@@ -156,7 +156,8 @@ def step (line : String) : String :=
       -- `leak` and `det` are oracle bits about the implementation only; the model has no counterpart
       let mi := o.pm == mpm && o.leaves == mlv && decide (o.v = mv)
       let s := specOK c o
-      verdict id mi s "-" s!"PM {encPaths mpm} LV {encPaths mlv} V {encV mv} K 0 D 1"
+      -- the model's observation is printed only where it is needed (a disagreement or an oracle failure)
+      verdict id mi s "-" (if mi && s then "" else s!"PM {encPaths mpm} LV {encPaths mlv} V {encV mv} K 0 D 1")
     | _, _ => s!"{id} bad-case"
 
 end Rivaas.DriverC05
